@@ -2,7 +2,7 @@
 # usage: tools/try4.sh Cxx v [props...] -- like try3.sh for round-5 seeds under /tmp/seed5 (scratch tree /tmp/sw/Cxxv)
 id=$1; v=$2; shift 2
 t=/tmp/sw/$id$v
-if [ ! -d $t ]; then mkdir -p $t && git -C /repo archive HEAD | tar -x -C $t && ( cd $t && patch -s -p1 < /tmp/seed5/$id/patch_$v.diff ) || { echo "cannot build $t"; exit 2; }; fi
+if [ ! -d $t ]; then mkdir -p $t && git -C /repo archive HEAD | tar -x -C $t && ( cd $t && patch -s -p1 < $( [ -f /verif/seeded/$id$v/patch.diff ] && echo /verif/seeded/$id$v/patch.diff || echo /tmp/seed5/$id/patch_$v.diff ) ) || { echo "cannot build $t"; exit 2; }; fi
 props=${@:-$(jq -r '.checks[].property_id' /verif/MANIFEST.json)}
 cd /verif
 for p in $props; do
